@@ -261,7 +261,7 @@ theorem sessOp_store_untouched (cfg : Cfg) (n : Node) (sid : Nat) (mode : Mode) 
 /-- the session-borne commands that change the fabric / network keys of the store: the fabric-scoped
 writes, RemoveFabric, CommissioningComplete -/
 def storeOp : Op → Bool
-  | .acl .. | .grp .. | .label .. | .fwrite _ | .rmfab .. | .complete _ => true
+  | .acl .. | .grp .. | .label .. | .fwrite _ | .vvs _ | .rmfab .. | .complete _ => true
   | _ => false
 
 /-- every other session-borne command leaves the projection of the store alone -/
@@ -314,6 +314,7 @@ theorem sessOp_quiet (cfg : Cfg) (n : Node) (sid : Nat) (mode : Mode) (op : Op) 
   | grp s v => simp [storeOp] at hq
   | label s v => simp [storeOp] at hq
   | fwrite s => simp [storeOp] at hq
+  | vvs s => simp [storeOp] at hq
   | rmfab s idx => simp [storeOp] at hq
   | complete s => simp [storeOp] at hq
   | _ => exact quiet_refl n
@@ -361,6 +362,20 @@ theorem sessOp_one (cfg : Cfg) (n : Node) (sid : Nat) (mode : Mode) (op : Op) (h
     · cases hg : getFabric n mode.fab with
       | none => exact one_of_quiet (quiet_refl n)
       | some f => exact write_one n f f
+  | vvs s =>
+    simp only [sessOp]
+    split
+    · exact one_of_quiet (quiet_refl n)
+    · cases hg : getFabric n mode.fab with
+      | none => exact one_of_quiet (quiet_refl n)
+      | some f =>
+        simp only []
+        split
+        · exact one_of_quiet (quiet_refl n)
+        · have h := storeFabric_one n f
+          rcases hst : storeFabric n f with ⟨n2, b⟩
+          rw [hst] at h
+          cases b <;> exact h
   | complete s => exact absurd rfl (hnc s)
   | rmfab s idx =>
     simp only [sessOp]
